@@ -116,11 +116,14 @@ pub fn o_incremental(input: &[u8], p: &P) -> Out {
 fn incremental_inner(input: &[u8], p: &P, rg: &RefGame, aspects: i64) -> Result<u64, (String, String)> {
 	let e = |s: &str, m: String| (s.to_string(), m);
 	let mut r = EnvReader::new(input, sched_of(p));
-	let raw_len = de::parse_header(&mut r, None).map_err(|x| e("inc-error", format!("parse_header failed on a well-formed replay: {}", x)))? as usize;
+	// the options are handed to every incremental call, as the one-shot reader does
+	let opts_val = slp_opts(p.skip, p.hash);
+	let opts = if p.skip || p.hash { Some(&opts_val) } else { None };
+	let raw_len = de::parse_header(&mut r, opts).map_err(|x| e("inc-error", format!("parse_header failed on a well-formed replay: {}", x)))? as usize;
 	if raw_len != rg.raw_len_declared as usize {
 		return Err(e("inc-header", format!("parse_header returned {} but the file declares {}", raw_len, rg.raw_len_declared)));
 	}
-	let mut state = de::parse_start(&mut r, None).map_err(|x| e("inc-error", format!("parse_start failed on a well-formed replay: {}", x)))?;
+	let mut state = de::parse_start(&mut r, opts).map_err(|x| e("inc-error", format!("parse_start failed on a well-formed replay: {}", x)))?;
 	let start_bytes = 2 + 3 * rg.table.len() + 1 + rg.start_block.len();
 	if aspects & A_BYTES != 0 {
 		if state.bytes_read() != start_bytes {
@@ -134,7 +137,7 @@ fn incremental_inner(input: &[u8], p: &P, rg: &RefGame, aspects: i64) -> Result<
 	let mut n = 0usize;
 	let mut obs = 0u64;
 	while state.bytes_read() < raw_len {
-		let code = de::parse_event(&mut r, &mut state, None).map_err(|x| e("inc-error", format!("parse_event #{} failed on a well-formed replay: {}", n, x)))?;
+		let code = de::parse_event(&mut r, &mut state, opts).map_err(|x| e("inc-error", format!("parse_event #{} failed on a well-formed replay: {}", n, x)))?;
 		if n >= rg.rows_done.len() {
 			return Err(e("inc-events", format!("parse_event succeeded {} times but the raw element has {} events", n + 1, rg.rows_done.len())));
 		}
@@ -185,7 +188,7 @@ fn incremental_inner(input: &[u8], p: &P, rg: &RefGame, aspects: i64) -> Result<
 		let mut b = [0u8; 1];
 		r.read_exact(&mut b).map_err(|x| e("inc-error", format!("{}", x)))?;
 		if b[0] == 0x55 {
-			de::parse_metadata(&mut r, &mut state, None).map_err(|x| e("inc-error", format!("parse_metadata failed on a well-formed replay: {}", x)))?;
+			de::parse_metadata(&mut r, &mut state, opts).map_err(|x| e("inc-error", format!("parse_metadata failed on a well-formed replay: {}", x)))?;
 		}
 		let g = read_slp_default(input).map_err(|f| e("oneshot-failed", format!("one-shot read failed: {}", f.describe())))?;
 		start_eq(state.start(), &g.start, true).map_err(|m| e("final-start", format!("incremental start != one-shot start: {}", m)))?;
